@@ -52,6 +52,8 @@ def mc_configs(tier):
     c["crit_completed"] = dict(BASE, NT=3, Kind="stop", MaxRuns=1, CKind="completed", K=0, FailB=1)
     c["crit_finished"] = dict(BASE, NT=3, Kind="stop", MaxRuns=1, CKind="finished", K=1, FailB=1, MaxFail=2)
     c["crit_evals"] = dict(BASE, NT=2, Kind="pause", CKind="evals", K=2, FailB=0)
+    c["crit_minmetric"] = dict(BASE, NT=3, Kind="stop", MaxRuns=1, CKind="minmetric", K=4, FailB=0)
+    c["crit_cost"] = dict(BASE, NT=3, Kind="stop", MaxRuns=1, CKind="cost", K=3, FailB=0)
     c["exhaust"] = dict(BASE, NT=2, Kind="pause", MayExhaust=True, FailB=0)
     c["ask_backend"] = dict(BASE, NT=3, Kind="stop", MaxRuns=1, FailB=1, Sjwd=False)
     c["ask_backend_pause"] = dict(BASE, NT=2, Kind="pause", FailB=0, Sjwd=False)
